@@ -110,7 +110,38 @@ class JsonSchemaParser:
             value = constraints.pop('ge')
             constraints.pop('le')
             constraints['const'] = value
+        members = constraints.get('enum')
+        if isinstance(members, (list, tuple)) and len(constraints) > 1:
+            # an enumeration overrides every other constraint of a type: keep the members the other keywords allow
+            kept = [m for m in members if cls._member_allowed(m, constraints)]
+            if kept:
+                constraints['enum'] = kept
         return constraints
+
+    @classmethod
+    def _member_allowed(cls, member, constraints: dict) -> bool:
+        try:
+            if isinstance(member, (int, float)) and not isinstance(member, bool):
+                if 'ge' in constraints and not member >= constraints['ge']:
+                    return False
+                if 'gt' in constraints and not member > constraints['gt']:
+                    return False
+                if 'le' in constraints and not member <= constraints['le']:
+                    return False
+                if 'lt' in constraints and not member < constraints['lt']:
+                    return False
+                if constraints.get('multiple_of') and member % constraints['multiple_of']:
+                    return False
+            if isinstance(member, (str, list, dict)):
+                if 'min_length' in constraints and len(member) < constraints['min_length']:
+                    return False
+                if 'max_length' in constraints and len(member) > constraints['max_length']:
+                    return False
+            if isinstance(member, str) and constraints.get('regex') and not re.search(constraints['regex'], member):
+                return False
+        except TypeError:
+            pass
+        return True
 
     def parse_field(self, schema: dict,
                     name: str = None,
